@@ -69,4 +69,19 @@ where
     ) -> io::Result<()> {
         self.0.write_record(header, record)
     }
+
+    /// Writes any buffered data and, for compressed formats, the end-of-file marker.
+    ///
+    /// # Examples
+    ///
+    /// ```
+    /// # use std::io;
+    /// use noodles_util::variant::io::writer::Builder;
+    /// let mut writer = Builder::default().build_from_writer(io::sink());
+    /// writer.finish()?;
+    /// # Ok::<_, io::Error>(())
+    /// ```
+    pub fn finish(&mut self) -> io::Result<()> {
+        self.0.finish()
+    }
 }
